@@ -55,3 +55,23 @@ func TestC15Enum(t *testing.T) {
 		fmt.Println("idx", idx, "histories", res.Stats["histories_evaluated"], "viol", len(res.Viol))
 	}
 }
+
+func TestC15Flags(t *testing.T) {
+	f := os.Getenv("C15_REPLAY")
+	if f == "" {
+		t.Skip()
+	}
+	b, _ := os.ReadFile(f)
+	var d struct {
+		Replay c15Replay `json:"replay"`
+	}
+	_ = json.Unmarshal(b, &d)
+	res := runner.CaseResult{}
+	w := newC15World(&res, d.Replay)
+	for _, st := range d.Replay.Steps {
+		w.do(st)
+	}
+	w.finish()
+	fmt.Printf("flags: recreated=%v placementOnly=%v editedAfter=%v restores=%d undoAfterPurge=%v race=%v\n", w.recreated, w.onlyPlacementDiffers, w.editedAfterRecreation, w.restores, w.undoAfterPurge, w.race)
+	fmt.Println("bagA:", contentBag(w.docs["A"]))
+}
